@@ -43,8 +43,6 @@ def main():
     chk.extra["configurations"] = ncfg
     chk.floor("v3_datagrams_judged", sum(s["requests"] for s in stats.values()), 4000)
     chk.floor("configurations", ncfg, 40)
-    chk.sample({"history": "with session: (discovery: engine id '', boots 0, user '') -> Report(engine E, 17/80331) -> probe(user u, auth, 17/80331) -> "
-                           "Report(4711/12) -> get(.., 4711/12) -> stray(99/99, other request-id) + reply(5/2^31-1) -> get(.., 5/2^31-1)"})
     sys.exit(chk.finish())
 
 
